@@ -64,11 +64,13 @@ def main():
             return 3
     dst = os.path.join(ROOT, "seeded", name)
     os.makedirs(dst, exist_ok=True)
-    shutil.copy(patch, os.path.join(dst, "patch.diff"))
-    shutil.copy(demo, os.path.join(dst, "demo.py"))
+    if os.path.abspath(src) != os.path.abspath(dst):
+        shutil.copy(patch, os.path.join(dst, "patch.diff"))
+        shutil.copy(demo, os.path.join(dst, "demo.py"))
     notes = os.path.join(src, "notes.md")
     if os.path.exists(notes):
-        shutil.copy(notes, os.path.join(dst, "notes.md"))
+        if os.path.abspath(src) != os.path.abspath(dst):
+            shutil.copy(notes, os.path.join(dst, "notes.md"))
         meta["needs_to_manifest"] = open(notes).read()[:1500]
     old = {}
     if os.path.exists(os.path.join(dst, "meta.json")):
